@@ -10,15 +10,16 @@ def run(ctx):
     else:
         # quick: 8 endpoint kinds x 2 halves = 16 work groups + 1 long-stall scenario (dns, waits for the
         # listener's once-a-minute expiry sweep) = 17 work items, one child each, all at once.
-        # + 2 work items with the descriptor-exhaustion scenarios (6 kinds) = 19.
+        # + 2 work items with the descriptor-exhaustion scenarios (6 kinds) + 1 with the DNS session table filled
+        # by stalled peers = 20.
         # thorough: 13 kinds x 2 halves + 17 long-stall scenarios + 9 descriptor-exhaustion work items (one per
-        # kind) = 52 work items, one child each, 16 at a time.
+        # kind) + 3 session-table scenarios = 55 work items, one child each, 16 at a time.
         if ctx.tier == "quick":
-            ctx.run_shards(b, "TestVerifC15", 19, 900, "c15", parallel=19)
+            ctx.run_shards(b, "TestVerifC15", 20, 900, "c15", parallel=20)
         else:
-            ctx.run_shards(b, "TestVerifC15", 52, 3000, "c15")
+            ctx.run_shards(b, "TestVerifC15", 55, 3000, "c15")
             br = ctx.build(pkg, race=True)
-            ctx.run_shards(br, "TestVerifC15", 19, 1500, "c15race", extra_env={"VERIF_TIER": "quick"}, race=True, parallel=19)
+            ctx.run_shards(br, "TestVerifC15", 20, 1500, "c15race", extra_env={"VERIF_TIER": "quick"}, race=True, parallel=20)
     return driver.finish(
         ctx, "fault_enumeration",
         "for every server endpoint kind {tcp, unix, tcp+tls, tcp+starttls, ws, wss, udp/KCP, dns} the real server is started and k scripted peers "
@@ -47,7 +48,12 @@ def run(ctx):
         "(pairs 10..15 quick, 16..55 thorough); peers that stall after connect / inside the TLS hello / inside the HTTP request line / inside the first request line pile up one by one until the "
         "table is full and the server's accept of the next connection fails with EMFILE (SEEN in the accept loop's / net/http's log line; off-by-one is repaired by releasing a reserve descriptor "
         "and connecting exactly one more peer); then 50-95 % of them leave (seeded choice), the limit is given back, and A opens another logical connection while 1-2 new clients connect. "
-        "No accept error seen and nothing failed = inconclusive. Oracle: every good logical connection completes under the stall rule (no wall-clock deadline) while the stalled "
+        "No accept error seen and nothing failed = inconclusive. "
+        "CROWDS: 20..48 peers (thorough: 20, 40, 100, and 100 at mixed points) stalled at one point inside the handshake (after connect, TLS hello, HTTP request line, websocket open, first request line, between the "
+        "requests, StartTLS 101 / hello) on every kind but dns, the datagram endpoint at every such point; and the DNS endpoint's SESSION TABLE FILLED by stalled peers (a child of its own): client A first, "
+        "then peers that send only the version request arrive 16 at a time, each from an address of its own, until the server answers 'server full' (36*36 sessions; filled until the server says so), "
+        "1-3 more arrive at the full table, then 3-32 of the stalled peers close their sessions (acknowledged), then A opens another logical connection and 2 new clients connect "
+        "(thorough: more arrivals, 200+ and 400+ leavers, dns+starttls). 'Full' never seen or nobody could leave, and nothing failed = inconclusive. Oracle: every good logical connection completes under the stall rule (no wall-clock deadline) while the stalled "
         "peers are still connected (their sockets are probed at the end and the state recorded); a scripted peer that is refused an answer "
         "it is entitled to on its way to its stall point counts as blocked too. Distinct = (kind, order, stall points, good clients, sizes); "
         "non-trivial = the good clients ran to a verdict.",
